@@ -868,6 +868,13 @@ func (il *inliner) stmtEdit(stmt ast.Stmt, file *ast.File) (string, bool) {
 		}
 		return "", false
 	}
+	// calls of new PURE helpers nested inside an expression (`return indexOf(a, x) >= 0 ||
+	// indexOf(b, x) >= 0`, `if i := indexOf(l, x); i >= 0`, `x := f(h(y))`) are hoisted into
+	// temporaries in front of the statement - evaluating a pure call early, or unconditionally
+	// where it was behind a short circuit, changes nothing - and expanded in the next round
+	if t, ok := il.hoistNestedPure(stmt, calleeOf); ok {
+		return t, true
+	}
 	switch x := stmt.(type) {
 	case *ast.ExprStmt, *ast.AssignStmt, *ast.DeclStmt:
 		t, ok := simple(x)
@@ -2708,4 +2715,208 @@ func (il *inliner) stableLocal(e ast.Expr) bool {
 		return true
 	})
 	return stable
+}
+
+// pureFresh: the new helper computes a value and does nothing else: no assignment to anything but
+// its own locals, no calls except builtins len / cap and other pure new helpers, no go / defer /
+// send / function literals.
+func (il *inliner) pureFresh(fd *ast.FuncDecl, depth int) bool {
+	if fd == nil || fd.Body == nil || depth > 3 {
+		return false
+	}
+	info := il.pkg.TypesInfo
+	own := map[types.Object]bool{}
+	if fd.Recv != nil {
+		for _, f := range fd.Recv.List {
+			for _, n := range f.Names {
+				own[info.Defs[n]] = true
+			}
+		}
+	}
+	for _, f := range fd.Type.Params.List {
+		for _, n := range f.Names {
+			own[info.Defs[n]] = true
+		}
+	}
+	if fd.Type.Results != nil {
+		for _, f := range fd.Type.Results.List {
+			for _, n := range f.Names {
+				own[info.Defs[n]] = true
+			}
+		}
+	}
+	ok := true
+	ast.Inspect(fd.Body, func(n ast.Node) bool {
+		switch x := n.(type) {
+		case *ast.AssignStmt:
+			for _, l := range x.Lhs {
+				id, isID := l.(*ast.Ident)
+				if !isID {
+					ok = false
+					continue
+				}
+				if d := info.Defs[id]; d != nil {
+					own[d] = true
+				} else if !own[info.Uses[id]] {
+					ok = false
+				}
+			}
+		case *ast.RangeStmt:
+			for _, e := range []ast.Expr{x.Key, x.Value} {
+				if id, isID := e.(*ast.Ident); isID {
+					if d := info.Defs[id]; d != nil {
+						own[d] = true
+					} else if !own[info.Uses[id]] && id.Name != "_" {
+						ok = false
+					}
+				} else if e != nil {
+					ok = false
+				}
+			}
+		case *ast.DeclStmt:
+			if gd, isGD := x.Decl.(*ast.GenDecl); isGD {
+				for _, sp := range gd.Specs {
+					if vs, isVS := sp.(*ast.ValueSpec); isVS {
+						for _, nm := range vs.Names {
+							own[info.Defs[nm]] = true
+						}
+					}
+				}
+			}
+		case *ast.IncDecStmt:
+			if id, isID := x.X.(*ast.Ident); !isID || !own[info.Uses[id]] {
+				ok = false
+			}
+		case *ast.GoStmt, *ast.DeferStmt, *ast.SendStmt, *ast.FuncLit, *ast.SelectStmt:
+			ok = false
+		case *ast.UnaryExpr:
+			if x.Op == token.ARROW || x.Op == token.AND {
+				ok = false
+			}
+		case *ast.CallExpr:
+			if tv, has := info.Types[x.Fun]; has && tv.IsType() {
+				return true
+			}
+			if id, isID := x.Fun.(*ast.Ident); isID {
+				if _, isB := info.Uses[id].(*types.Builtin); isB && (id.Name == "len" || id.Name == "cap" || id.Name == "max" || id.Name == "min") {
+					return true
+				}
+			}
+			var cid *ast.Ident
+			switch f := ast.Unparen(x.Fun).(type) {
+			case *ast.Ident:
+				cid = f
+			case *ast.SelectorExpr:
+				cid = f.Sel
+			}
+			if cid != nil {
+				if fn, _ := info.Uses[cid].(*types.Func); fn != nil && il.fresh[fn] != nil && il.fresh[fn] != fd && il.pureFresh(il.fresh[fn], depth+1) {
+					return true
+				}
+			}
+			ok = false
+		}
+		return ok
+	})
+	return ok
+}
+
+// hoistNestedPure: see stmtEdit.
+func (il *inliner) hoistNestedPure(stmt ast.Stmt, calleeOf func(ast.Expr) (*types.Func, *ast.CallExpr)) (string, bool) {
+	var roots []ast.Expr
+	braces := false
+	var ifs *ast.IfStmt
+	switch x := stmt.(type) {
+	case *ast.ReturnStmt:
+		roots = append(roots, x.Results...)
+		braces = true
+	case *ast.IfStmt:
+		ifs = x
+		if x.Init != nil {
+			as, ok := x.Init.(*ast.AssignStmt)
+			if !ok {
+				return "", false
+			}
+			roots = append(roots, as.Rhs...)
+		}
+		roots = append(roots, x.Cond)
+		braces = true
+	case *ast.AssignStmt:
+		roots = append(roots, x.Rhs...)
+	case *ast.ExprStmt:
+		roots = append(roots, x.X)
+	default:
+		return "", false
+	}
+	type hit struct {
+		call *ast.CallExpr
+		tmp  string
+	}
+	var hits []hit
+	for _, r := range roots {
+		whole := ast.Unparen(r)
+		ast.Inspect(r, func(n ast.Node) bool {
+			if _, isLit := n.(*ast.FuncLit); isLit {
+				return false
+			}
+			c, ok := n.(*ast.CallExpr)
+			if !ok {
+				return true
+			}
+			fn, call := calleeOf(c)
+			if fn == nil || call != c {
+				return true
+			}
+			// the whole right-hand side / condition / single result is the business of the other shapes
+			if ast.Node(whole) == ast.Node(c) {
+				if _, isRet := stmt.(*ast.ReturnStmt); !isRet || len(roots) == 1 {
+					if ifs == nil || ifs.Init == nil {
+						return false
+					}
+				}
+			}
+			fd := il.fresh[fn]
+			if fd == nil || fd.Type.Results == nil || len(fd.Type.Results.List) != 1 || len(fd.Type.Results.List[0].Names) > 1 {
+				return true
+			}
+			if !il.pureFresh(fd, 0) {
+				return true
+			}
+			for _, a := range c.Args {
+				if !pureArg(a) {
+					return true
+				}
+			}
+			if se, isSel := ast.Unparen(c.Fun).(*ast.SelectorExpr); isSel && !pureArg(se.X) {
+				return true
+			}
+			inlineSeq++
+			hits = append(hits, hit{c, fmt.Sprintf("h__inl%d", inlineSeq)})
+			return false
+		})
+	}
+	if len(hits) == 0 {
+		return "", false
+	}
+	file := il.fset.Position(stmt.Pos()).Filename
+	src := il.src[file]
+	if src == nil {
+		return "", false
+	}
+	st, en := il.fset.Position(stmt.Pos()).Offset, il.fset.Position(stmt.End()).Offset
+	var pre strings.Builder
+	body := string(src[st:en])
+	// replace from the back so that offsets stay valid
+	for i := len(hits) - 1; i >= 0; i-- {
+		cs, ce := il.fset.Position(hits[i].call.Pos()).Offset-st, il.fset.Position(hits[i].call.End()).Offset-st
+		body = body[:cs] + hits[i].tmp + body[ce:]
+	}
+	for _, h := range hits {
+		pre.WriteString(h.tmp + " := " + il.text(h.call) + "\n")
+	}
+	il.exprInlined += len(hits)
+	if braces {
+		return "{ " + pre.String() + body + " }", true
+	}
+	return pre.String() + body, true
 }
